@@ -579,3 +579,21 @@ Example C07_l2tp_sccrq_roundtrip_nonvacuous :
   peer_rws (sccrq_avps [108; 97; 99; 49] 4242 [mkAvp true false 0 2 [1; 0]; mkAvp true false 0 10 (put16 8)]) = Ok 8.
 Proof. exact sccrq_roundtrip_nonvacuous. Qed.
 Print Assumptions C07_l2tp_sccrq_roundtrip_nonvacuous.
+
+(* ---- the LNS side of internal/l2tp over SEQUENCES of datagrams from a peer (SCCRQ, SCCCN, ICRQ, ICCN, CDN, StopCCN, Hello,
+   ZLB, wrong-role SCCRP / ICRP, data frames, garbage): for every sequence, from every state, no step panics or runs out of
+   fuel — every AVP value decoder on these paths is reached only under its length guard ---- *)
+Theorem C07_l2tp_lns_step_total : forall auth st b, is_crash (lns_step auth st b) = false.
+Proof. exact lns_step_total. Qed.
+Print Assumptions C07_l2tp_lns_step_total.
+Theorem C07_l2tp_lns_sequence_total : forall auth ds st, is_crash (lns_run auth st ds) = false.
+Proof. exact lns_run_total. Qed.
+Print Assumptions C07_l2tp_lns_sequence_total.
+(* non-vacuity: an SCCRQ from the authorised LAC opens tunnel 1 towards peer tunnel 4242, the SCCCN establishes it *)
+Example C07_l2tp_lns_nonvacuous :
+  exists st, lns_run [108] lns0
+    [ [200; 2; 0; 35; 0; 0; 0; 0; 0; 0; 0; 0;  128; 8; 0; 0; 0; 0; 0; 1;  128; 7; 0; 0; 0; 7; 108;  128; 8; 0; 0; 0; 9; 16; 146];
+      [200; 2; 0; 20; 0; 1; 0; 0; 0; 1; 0; 1;  128; 8; 0; 0; 0; 0; 0; 3] ] = Ok st /\
+    map lns_toks st = [[TN 1; TN 1; TN 4242; TN 2; TN 0]; [TN 1; TN 1; TN 4242; TN 3; TN 0]].
+Proof. exact lns_nonvacuous. Qed.
+Print Assumptions C07_l2tp_lns_nonvacuous.
